@@ -435,12 +435,29 @@ pub fn truncations(seed: &[u8], wal: &Option<Vec<u8>>, dense: usize, sampled: us
 }
 
 /// all guided single-field mutations of the data file
-pub fn guided(seed: &[u8], wal: &Option<Vec<u8>>) -> Vec<Mutation> {
+pub fn guided(seed: &[u8], wal: &Option<Vec<u8>>) -> Vec<Mutation> { guided_impl(seed, wal, None).0 }
+
+/// at most `keep` of the guided mutations (a deterministic stride sample over all of them), built without
+/// materialising the others (each mutation is a full copy of the file)
+pub fn guided_sampled(seed: &[u8], wal: &Option<Vec<u8>>, keep: usize) -> (Vec<Mutation>, usize) {
+    let (_, n) = guided_impl(seed, wal, Some(&|_| false));
+    if n <= keep { return (guided_impl(seed, wal, None).0, n); }
+    let stride = n as f64 / keep as f64;
+    let chosen: BTreeSet<usize> = (0..keep).map(|j| (j as f64 * stride) as usize).collect();
+    (guided_impl(seed, wal, Some(&|i| chosen.contains(&i))).0, n)
+}
+
+fn guided_impl(seed: &[u8], wal: &Option<Vec<u8>>, select: Option<&dyn Fn(usize) -> bool>) -> (Vec<Mutation>, usize) {
     let mut out = vec![];
+    let mut count = 0usize;
     let recs = parse_records(seed);
     let len = seed.len() as u64;
     let indexes: Vec<u64> = recs.iter().map(|r| r.index).filter(|i| *i != 0).collect();
-    let mut m = |desc: String, f: &dyn Fn(&mut Vec<u8>)| { let mut d = seed.to_vec(); f(&mut d); out.push(Mutation { desc, data: d, wal: wal.clone() }); };
+    let mut m = |desc: String, f: &dyn Fn(&mut Vec<u8>)| {
+        let i = count; count += 1;
+        if let Some(sel) = select { if !sel(i) { return; } }
+        let mut d = seed.to_vec(); f(&mut d); out.push(Mutation { desc, data: d, wal: wal.clone() });
+    };
     for (k, rec) in recs.iter().enumerate() {
         let remaining = len.saturating_sub(rec.pos as u64 + 16);
         // record index
@@ -503,7 +520,7 @@ pub fn guided(seed: &[u8], wal: &Option<Vec<u8>>) -> Vec<Mutation> {
             }
         }
     }
-    out
+    (out, count)
 }
 
 pub fn random_damage(seed: &[u8], wal: &Option<Vec<u8>>, n: usize, r: &mut Rng) -> Vec<Mutation> {
@@ -719,8 +736,8 @@ pub fn run_child(exe: &str, path: &str, variant: &str, limit: usize, timeout: Du
     classify(&so, &se, status, timed_out)
 }
 
-pub struct Job { pub seed: String, pub m: Mutation, pub variant: String }
-pub struct Done { pub seed: String, pub desc: String, pub variant: String, pub data_len: usize, pub wal_len: Option<usize>, pub out: Outcome, pub data: Vec<u8>, pub wal: Option<Vec<u8>> }
+pub struct Job { pub seed: String, pub m: Arc<Mutation>, pub variant: String }
+pub struct Done { pub seed: String, pub desc: String, pub variant: String, pub data_len: usize, pub wal_len: Option<usize>, pub out: Outcome, pub m: Option<Arc<Mutation>> }
 
 pub fn alloc_limit(data_len: usize, wal_len: usize) -> usize { (1 << 16) + 1024 * (data_len + wal_len) }
 
@@ -790,8 +807,11 @@ pub fn run_jobs(jobs: Vec<Job>, work: &str, threads: usize, timeout: Duration) -
                 let (out, alive) = run_on_worker(&mut w, &path, &job.variant, lim, timeout);
                 if !alive { let _ = w.child.kill(); let _ = w.child.wait(); w = spawn_worker(&exe); }
                 rm(&path);
-                done.lock().unwrap().push((k, Done { seed: job.seed, desc: job.m.desc, variant: job.variant, data_len: job.m.data.len(),
-                                                     wal_len: job.m.wal.as_ref().map(|w| w.len()), out, data: job.m.data, wal: job.m.wal }));
+                done.lock().unwrap().push((k, Done { seed: job.seed, desc: job.m.desc.clone(), variant: job.variant, data_len: job.m.data.len(),
+                                                     wal_len: job.m.wal.as_ref().map(|w| w.len()),
+                                                     // the bytes are kept only where the report needs them: small inputs (model correspondence) and failures (witness files)
+                                                     m: if (job.m.data.len() <= MODEL_MAX_LEN && job.m.wal.as_ref().map(|w| w.len()).unwrap_or(0) <= MODEL_MAX_LEN) || (out.class != "opens" && out.class != "error") { Some(job.m.clone()) } else { None },
+                                                     out }));
             }
             let _ = w.child.kill(); let _ = w.child.wait();
         }));
@@ -841,28 +861,42 @@ pub fn run(seed: u64, out: &str, thorough: bool, threads: usize, variants: &[Str
     let seeds = build_seeds(&format!("{}/seeds", out), &mut r, thorough);
     let mut jobs: Vec<Job> = vec![];
     let mut stats: BTreeMap<String, u64> = BTreeMap::new();
+    // the jobs of one seed file are run and dropped before the next seed's mutations are built (each mutation is a full copy of the file)
+    let work = if std::path::Path::new("/dev/shm").is_dir() { format!("/dev/shm/hx_c07_{}", std::process::id()) } else { format!("{}/work", out) };
+    let mut done: Vec<Done> = vec![];
+    let mut total = 0usize;
     for (name, data, wal) in &seeds {
         let mut ms = truncations(data, wal, 512, if thorough { 600 } else { 60 }, &mut r);
-        let mut g = guided(data, wal);
-        *stats.entry(format!("guided-available:{}", name)).or_insert(0) += g.len() as u64;
-        if !thorough && g.len() > guided_per_seed {
-            // keep a deterministic sample that still covers every kind of field
-            let mut keep = vec![];
-            let stride = g.len() as f64 / guided_per_seed as f64;
-            let mut x = 0.0f64;
-            while (x as usize) < g.len() && keep.len() < guided_per_seed { keep.push(g[x as usize].clone()); x += stride; }
-            g = keep;
-        }
+        // a deterministic sample that still covers every kind of field; bounded by memory too (each mutation is a copy of the file)
+        let guided_per_seed = (if thorough { guided_per_seed.max(12000) } else { guided_per_seed }).min(((1usize << 30) / data.len().max(1)).max(300));
+        let (g, available) = guided_sampled(data, wal, guided_per_seed);
+        *stats.entry(format!("guided-available:{}", name)).or_insert(0) += available as u64;
         ms.extend(g);
         ms.extend(random_damage(data, wal, if thorough { 2000 } else { 60 }, &mut r));
         if name == "small" || name == "empty" || name == "pending-log" || (thorough && name != "big") { ms.extend(log_damage(data, wal, &mut r)); }
+        // memory: every mutation is a full copy of the file; a large seed keeps a deterministic stride sample (<= ~2 GB of copies)
+        let budget = (2usize << 30) / data.len().max(1);
+        if ms.len() > budget.max(500) {
+            let keep = budget.max(500);
+            let stride = ms.len() as f64 / keep as f64;
+            let mut out_ms = Vec::with_capacity(keep);
+            let mut x = 0.0f64;
+            let mut taken = 0usize;
+            let mut it = ms.into_iter().enumerate();
+            while let Some((i, m)) = it.next() { if i == x as usize && taken < keep { out_ms.push(m); taken += 1; x += stride; while (x as usize) <= i { x += stride; } } }
+            *stats.entry(format!("mutations-sampled-down:{}", name)).or_insert(0) += taken as u64;
+            ms = out_ms;
+        }
         for m in ms {
+            let m = Arc::new(m);
             for v in variants { jobs.push(Job { seed: name.clone(), m: m.clone(), variant: v.clone() }); }
             // the storage layer alone, for the model correspondence (small inputs: they travel as text)
             if m.data.len() <= MODEL_MAX_LEN && m.wal.as_ref().map(|w| w.len()).unwrap_or(0) <= MODEL_MAX_LEN {
                 for v in STORAGE_VARIANTS { jobs.push(Job { seed: name.clone(), m: m.clone(), variant: v.to_string() }); }
             }
         }
+        total += jobs.len();
+        done.extend(run_jobs(std::mem::take(&mut jobs), &work, threads, Duration::from_secs(8)));
     }
     // a plain storage with records, a free region and a free index: storage layer only
     let tiny = tiny_storage(&format!("{}/seeds", out));
@@ -872,9 +906,10 @@ pub fn run(seed: u64, out: &str, thorough: bool, threads: usize, variants: &[Str
         ms.extend(random_damage(&tiny, &None, if thorough { 3000 } else { 200 }, &mut r));
         ms.extend(log_damage(&tiny, &None, &mut r));
         ms.push(Mutation { desc: "intact".into(), data: tiny.clone(), wal: None });
-        for m in ms { for v in STORAGE_VARIANTS { jobs.push(Job { seed: "tiny-storage".into(), m: m.clone(), variant: v.to_string() }); } }
+        for m in ms { let m = Arc::new(m); for v in STORAGE_VARIANTS { jobs.push(Job { seed: "tiny-storage".into(), m: m.clone(), variant: v.to_string() }); } }
     }
     for m in random_files(if thorough { 20000 } else { 150 }, &mut r) {
+        let m = Arc::new(m);
         for v in variants { jobs.push(Job { seed: "random".into(), m: m.clone(), variant: v.clone() }); }
         for v in STORAGE_VARIANTS { jobs.push(Job { seed: "random".into(), m: m.clone(), variant: v.to_string() }); }
     }
@@ -885,12 +920,12 @@ pub fn run(seed: u64, out: &str, thorough: bool, threads: usize, variants: &[Str
         for n in names {
             let data = std::fs::read(format!("{}/{}", corpus, n)).unwrap_or_default();
             let wal = std::fs::read(format!("{}/{}", corpus, n.replace(".bin", ".wal"))).ok();
-            for v in variants { jobs.push(Job { seed: "corpus".into(), m: Mutation { desc: n.clone(), data: data.clone(), wal: wal.clone() }, variant: v.clone() }); }
+            let m = Arc::new(Mutation { desc: n.clone(), data: data.clone(), wal: wal.clone() });
+            for v in variants { jobs.push(Job { seed: "corpus".into(), m: m.clone(), variant: v.clone() }); }
         }
     }
-    let total = jobs.len();
-    let work = if std::path::Path::new("/dev/shm").is_dir() { format!("/dev/shm/hx_c07_{}", std::process::id()) } else { format!("{}/work", out) };
-    let mut done = run_jobs(jobs, &work, threads, Duration::from_secs(8));
+    total += jobs.len();
+    done.extend(run_jobs(jobs, &work, threads, Duration::from_secs(8)));
     let _ = std::fs::remove_dir_all(&work);
     resolve_sites(&mut done);
     let mut rep = Report { oracle: vec![], stats, samples: vec![], evaluations: total as u64, nontrivial: 0, cases: vec![], imp: vec![] };
@@ -908,7 +943,7 @@ pub fn run(seed: u64, out: &str, thorough: bool, threads: usize, variants: &[Str
         if d.out.class == "opens" && d.seed != "random" && distinct.insert((d.seed.clone(), d.desc.clone())) { rep.nontrivial += 1; }
         // model correspondence input: storage layer outcome for data + log (hex), per variant kind
         if let Some(be) = d.variant.strip_prefix("storage_") {
-            rep.cases.push(format!("open o {} {} {} {}", guards, be, hex(&d.data), d.wal.as_ref().map(|w| hex(w)).unwrap_or("-".into())));
+            rep.cases.push(format!("open o {} {} {} {}", guards, be, hex(&d.m.as_ref().unwrap().data), d.m.as_ref().unwrap().wal.as_ref().map(|w| hex(w)).unwrap_or("-".into())));
             rep.imp.push(match d.out.class.as_str() {
                 "opens" => d.out.detail.to_lowercase(),
                 "error" => "error".to_string(),
@@ -926,18 +961,18 @@ pub fn run(seed: u64, out: &str, thorough: bool, threads: usize, variants: &[Str
             let better = witness.get(&key).map(|(s, _)| size < *s).unwrap_or(true);
             if better {
                 let base = format!("{}/{}", wdir, slug(&key).replace('/', "_"));
-                std::fs::write(format!("{}.bin", base), &d.data).unwrap();
+                std::fs::write(format!("{}.bin", base), &d.m.as_ref().unwrap().data).unwrap();
                 let _ = std::fs::remove_file(format!("{}.wal", base));
-                if let Some(w) = &d.wal { std::fs::write(format!("{}.wal", base), w).unwrap(); }
+                if let Some(w) = &d.m.as_ref().unwrap().wal { std::fs::write(format!("{}.wal", base), w).unwrap(); }
                 witness.insert(key.clone(), (size, format!("seed={} mutation={} variant={} data_len={} log_len={:?} : {}", d.seed, d.desc, d.variant, d.data_len, d.wal_len, d.out.detail)));
             }
             all_fail.push(format!("{} seed={} mutation={} variant={} : {}", d.out.class, d.seed, d.desc, d.variant, d.out.detail));
             *rep.stats.entry(format!("crash:{}", d.out.class)).or_insert(0) += 1;
             let cnt = rep.stats[&format!("crash:{}", d.out.class)];
             if cnt <= 3 {
-                let file_hex = if d.data_len <= 256 { hex(&d.data) } else { format!("({} bytes)", d.data_len) };
+                let file_hex = if d.data_len <= 256 { hex(&d.m.as_ref().unwrap().data) } else { format!("({} bytes)", d.data_len) };
                 rep.oracle.push(format!("{} seed={} mutation={} variant={} data_len={} log={} : {} file={}", d.out.class, d.seed, d.desc, d.variant, d.data_len,
-                                        d.wal.as_ref().map(|w| hex(w)).unwrap_or("-".into()), d.out.detail, file_hex));
+                                        d.m.as_ref().unwrap().wal.as_ref().map(|w| hex(w)).unwrap_or("-".into()), d.out.detail, file_hex));
             }
         }
     }
